@@ -430,3 +430,211 @@ class FunctionBody(Contract):
             h.oblige(f"body.all-returns-through-that-clone[{Mn}]",
                      z3.BoolVal({id(x) for x in clones[0].seen}
                                 == {id(x) for x in b.obj.returns.values()}))
+
+
+# {{{ whole programs with calls (translation validation of inline_calls)
+
+def _call_programs():
+    """name -> () -> (outputs with calls, the same outputs computed by
+    applying the Python functions directly).  Every pattern the property
+    names: shared placeholder names between caller and body, one definition
+    called several times (same arrays in different parameter positions; call
+    sites that produce equal sub-expressions; an expression of the body also
+    computed by the caller), nested calls, keyword arguments, the three
+    return conventions."""
+    def mkp(name, dtype=np.float64):
+        return pt.make_placeholder(name, (4,), dtype)
+
+    def once(f, *args, **kwargs):
+        """(call-based result, direct result, the definition)"""
+        res = trace_call(f, *args, **kwargs)
+        one = res if isinstance(res, Array) else (
+            res[0] if isinstance(res, tuple) else next(iter(res.values())))
+        return res, f(*args, **kwargs), one._container.function
+
+    def again(fd, f, **kwargs):
+        """the *same* definition called with other arguments"""
+        return fd(**{"in_" + k: v for k, v in kwargs.items()}), f(**kwargs)
+
+    def swapped():
+        a, b = mkp("a"), mkp("b")
+        f = lambda x, y: 2 * x - y       # noqa: E731
+        r1, d1, fd = once(f, x=a, y=b)
+        r2, d2 = again(fd, f, x=b, y=a)
+        return {"o": r1, "p": r2, "q": r1 * r2}, {"o": d1, "p": d2,
+                                                  "q": d1 * d2}
+
+    def equal_subexpressions():
+        a, b, c = mkp("a"), mkp("b"), mkp("c")
+        f = lambda x, y: 2 * x + y       # noqa: E731
+        r1, d1, fd = once(f, x=a, y=b)
+        r2, d2 = again(fd, f, x=a, y=c)
+        return {"o": r1 + r2, "p": r1 + 2 * a}, {"o": d1 + d2,
+                                                 "p": d1 + 2 * a}
+
+    def three_sites_kw():
+        a, b, c = mkp("a"), mkp("b"), mkp("c")
+        g = lambda x, y, z: (x - y) * z + x      # noqa: E731
+        r1, d1, fd = once(g, x=a, y=b, z=c)
+        r2, d2 = again(fd, g, x=c, y=a, z=b)
+        r3, d3 = again(fd, g, x=b, y=c, z=a)
+        return {"o": r1, "p": r2, "q": r3}, {"o": d1, "p": d2, "q": d3}
+
+    def same_names():
+        # caller placeholders called like the parameters, crosswise
+        x, y = mkp("x"), mkp("y")
+        f = lambda x, y: x - 3 * y       # noqa: E731
+        r1, d1, fd = once(f, x=y, y=x)
+        r2, d2 = again(fd, f, x=x, y=y)
+        return {"o": r1 + x, "p": r2 - y}, {"o": d1 + x, "p": d2 - y}
+
+    def nested():
+        a, b = mkp("a"), mkp("b")
+        inner = lambda x, y: x * y - y           # noqa: E731
+
+        def outer_calls(x, y):
+            return trace_call(inner, x=y, y=x) + trace_call(inner, x=x, y=x + y)
+
+        def outer_direct(x, y):
+            return inner(x=y, y=x) + inner(x=x, y=x + y)
+        r1 = trace_call(outer_calls, x=a, y=b)
+        fd = r1._container.function
+        r2 = fd(in_x=b, in_y=a + 1)
+        return {"o": r1, "p": r2}, {"o": outer_direct(a, b),
+                                    "p": outer_direct(b, a + 1)}
+
+    def tuple_and_dict():
+        a, b = mkp("a"), mkp("b")
+        ft = lambda x, y: (x + y, x - y, 2 * y)          # noqa: E731
+        fd_ = lambda x, y: {"s": x + y, "d": y - x}      # noqa: E731
+        t = trace_call(ft, a, b)
+        tfd = t[0]._container.function
+        names = sorted(tfd.parameters)      # in__pt_0, in__pt_1
+        tt = tfd(**dict(zip(names, (b, a), strict=True)))
+        dt = ft(b, a)
+        d = trace_call(fd_, a, y=b)
+        outs = {"t0": t[0], "t1": t[1], "t2": t[2], "ds": d["s"],
+                "dd": d["d"], "u0": tt[0], "u1": tt[1]}
+        direct = {"t0": a + b, "t1": a - b, "t2": 2 * b, "ds": a + b,
+                  "dd": b - a, "u0": dt[0], "u1": dt[1]}
+        return outs, direct
+    return {"swapped": swapped, "equal_subexpressions": equal_subexpressions,
+            "three_sites_kw": three_sites_kw, "same_names": same_names,
+            "nested": nested, "tuple_and_dict": tuple_and_dict}
+
+
+@contract
+class CallPrograms(Contract):
+    name = "calls.programs"
+    functions = ("pytato.transform.calls:inline_calls",
+                 "pytato.transform.calls:tag_all_calls_to_be_inlined",
+                 "pytato.transform.calls:Inliner.map_call",
+                 "pytato.transform.calls:Inliner.__init__",
+                 "pytato.function:FunctionDefinition.__call__",
+                 "pytato.function:trace_call")
+    properties = ("C12",)
+    max_paths = 10
+    notes = ("translation validation: the real passes run natively on each "
+             "listed program; the call-free result is proved (z3, all input "
+             "values and indices) to denote what applying the Python "
+             "functions directly denotes",)
+
+    def instances(self, tier):
+        return [dict(label=k, prog=k) for k in _call_programs()]
+
+    def canaries(self, tier):
+        return [(dict(label="swapped", prog="swapped"), "output-plus-one",
+                 "calls.programs.value")]
+
+    def run(self, h, inst):
+        from contracts.c05_transforms import _inputs_by_identity
+        from contracts.c07_kernel import pytato_den
+        from pytato.analysis import get_num_call_sites
+        from pyvc.den import ArrayModel
+        from pyvc.ptlib import in_box, oblige_equal_den
+        try:
+            outs, direct = _call_programs()[inst["prog"]]()
+        except Exception as e:  # noqa: BLE001
+            h.fail("calls.programs.traceable", f"{type(e).__name__}: {e}")
+            return
+        for k in outs:
+            ok = outs[k].shape == direct[k].shape and \
+                outs[k].dtype == direct[k].dtype
+            h.oblige("calls.programs.call-result-has-the-shape-and-dtype-of-"
+                     "the-direct-call", z3.BoolVal(bool(ok)), info=k)
+        d_in = pt.transform.deduplicate(pt.make_dict_of_named_arrays(outs))
+        try:
+            d_out = pt.inline_calls(pt.tag_all_calls_to_be_inlined(d_in))
+        except Exception as e:  # noqa: BLE001
+            h.fail("calls.programs.inline-no-exception",
+                   f"{type(e).__name__}: {e}")
+            return
+        h.oblige("calls.programs.result-is-call-free",
+                 z3.BoolVal(get_num_call_sites(d_out) == 0))
+        h.oblige("calls.programs.names", z3.BoolVal(list(d_out) == list(d_in)))
+        arrays = ArrayModel()
+        byname = {}
+        for k in direct:
+            for i in _inputs_by_identity(direct[k]):
+                if isinstance(i, Placeholder):
+                    byname.setdefault(i.name, i)
+        extra = []
+        for k in d_out:
+            for i in _inputs_by_identity(d_out[k].expr):
+                if isinstance(i, Placeholder):
+                    if i.name not in byname:
+                        extra.append(i.name)
+                    elif i is not byname[i.name]:
+                        arrays.alias(i, byname[i.name], i.ndim)
+        h.oblige("calls.programs.reads-only-the-caller's-inputs",
+                 z3.BoolVal(not extra), info=sorted(set(extra)))
+        for k in direct:
+            e0, e1 = direct[k], d_out[k].expr
+            if e0.shape != e1.shape or e0.dtype != e1.dtype:
+                h.fail("calls.programs.shape-dtype",
+                       f"{k}: {e1.shape}/{e1.dtype} vs {e0.shape}/{e0.dtype}")
+                continue
+            ivars = [z3.Int(f"i{d_}") for d_ in range(e0.ndim)]
+            box = in_box(ivars, e0.shape)
+            want = pytato_den(h, arrays, e0, ivars)
+            got = pytato_den(h, arrays, e1, ivars)
+            if h.canary == "output-plus-one" and z3.is_expr(want):
+                want = want + 1
+            oblige_equal_den(h, "calls.programs.value", box, got, want,
+                             props=("C12",))
+
+    def replay(self, inst, clause, model, info):
+        return CALLPROG_REPLAY.format(prog=inst["prog"])
+
+
+CALLPROG_REPLAY = '''
+import sys
+sys.path.insert(0, "/verif"); sys.path.append("/verif/.deps")
+import numpy as np, pytato as pt
+from pyvc.replaylib import eval_array, reproduced, not_reproduced
+from contracts.c12_calls import _call_programs
+prog = {prog!r}
+outs, direct = _call_programs()[prog]()
+d_in = pt.transform.deduplicate(pt.make_dict_of_named_arrays(outs))
+try:
+    d_out = pt.inline_calls(pt.tag_all_calls_to_be_inlined(d_in))
+except Exception as e:
+    reproduced(f"inlining the calls of program '{{prog}}' raises "
+               f"{{type(e).__name__}}: {{str(e)[:300]}}")
+from pytato.analysis import get_num_call_sites
+if get_num_call_sites(d_out):
+    reproduced(f"program '{{prog}}': calls remain after inline_calls")
+rng = np.random.default_rng(5)
+data = {{nm: rng.integers(-4, 5, (4,)).astype(np.float64)
+        for nm in ("a", "b", "c", "x", "y")}}
+for k in direct:
+    want = eval_array(direct[k], data)
+    got = eval_array(d_out[k].expr, data)
+    if got.shape != want.shape or not np.allclose(got, want):
+        reproduced(f"program '{{prog}}', output '{{k}}': inlined graph gives "
+                   f"{{got.tolist()}}, calling the function directly gives "
+                   f"{{want.tolist()}} (inputs {{ {{n: v.tolist() for n, v in data.items()}} }})")
+not_reproduced("inlined graph agrees with the direct calls")
+'''
+
+# }}}
